@@ -167,9 +167,11 @@ def check_sched(case, ctx: Ctx):
         def same_stats(s1, s2, what):
             c1, c2 = np.atleast_1d(s1["converged"]), np.atleast_1d(s2["converged"])
             check(np.array_equal(c1, c2), f"{what}: converged {c1} vs {c2}")
-            for key in ("scale", "var"):
+            for key, rt in (("scale", 1e-8), ("var", 1e-6)):
+                # (var is a variance of marginals that are nearly equal once the run converges: the subtraction cancels
+                # ~8 digits, so two summation orders agree to 1e-6 relative at best - same tolerance as against the reference)
                 a, b = np.atleast_1d(np.asarray(s1[key], dtype=float)), np.atleast_1d(np.asarray(s2[key], dtype=float))
-                check(np.allclose(a, b, rtol=1e-8, atol=1e-300, equal_nan=True), f"{what}: {key} {a} vs {b}")
+                check(np.allclose(a, b, rtol=rt, atol=1e-300, equal_nan=True), f"{what}: {key} {a} vs {b}")
 
         if not tie:
             same(base_w, ref["weights"], "balance_cooler vs the dense iterative-correction reference")
@@ -370,6 +372,6 @@ def replay(ctx: Ctx, case):
 def run(ctx: Ctx):
     q = ctx.tier == "quick"
     parts = []
-    parts.append(given_part(ctx, "sched", cases(pools=not q), check_sched, per_shard(ctx, 280 if q else 9000), batch=20))
+    parts.append(given_part(ctx, "sched", cases(pools=not q), check_sched, per_shard(ctx, 224 if q else 9000), batch=20))
     parts.append(given_part(ctx, "cli", cli_cases(), check_cli, per_shard(ctx, 40 if q else 1600), batch=5))
     run_parts(ctx, parts)
